@@ -34,6 +34,18 @@ type sizeGen struct {
 	serial int
 }
 
+// legacyForm: a large string/bytes value as a device that speaks the old value encoding sends it - a JSON string
+// literal or a BYTES payload in the deprecated Update.value field (Pad lengthens both).
+func (f *sizeGen) legacyForm(v gn.Val) gn.Val {
+	if !f.g.speaksLegacy() {
+		return v
+	}
+	if v.Kind == "bytes" {
+		return gn.Val{Kind: "legacy-bytes", S: v.S}
+	}
+	return gn.Val{Kind: rapid.SampledFrom([]string{"deprecated", "deprecated", "legacy-ietf"}).Draw(f.t, "bigenc"), S: fmt.Sprintf("%q", v.S)}
+}
+
 // values: one notification with 2-5 very large values below big/c[id=k] - plain (group) or atomic.
 func (f *sizeGen) values() bool {
 	t, g := f.t, f.g
@@ -58,6 +70,7 @@ func (f *sizeGen) values() bool {
 		if rapid.IntRange(0, 2).Draw(t, "asbytes") == 0 {
 			v = gn.Val{Kind: "bytes", S: fmt.Sprintf("b%d-", f.serial)}
 		}
+		v = f.legacyForm(v)
 		pad := rapid.SampledFrom([]int{512 * kib, mib, mib + 300*kib, 3 * mib / 2, 2 * mib, 3 * mib}).Draw(t, "bigpad")
 		u := Up{Path: []gn.Elem{{Name: fmt.Sprintf("v%d", i)}}, Val: v, Pad: pad}
 		if kind == "group" {
@@ -69,7 +82,7 @@ func (f *sizeGen) values() bool {
 		o.Ups = append(o.Ups, u)
 	}
 	if rapid.IntRange(0, 2).Draw(t, "smallmember") == 0 {
-		o.Ups = append(o.Ups, Up{Path: []gn.Elem{{Name: "state"}}, Val: genVal(t)})
+		o.Ups = append(o.Ups, Up{Path: []gn.Elem{{Name: "state"}}, Val: g.val()})
 	}
 	g.emit(o)
 	return true
@@ -93,7 +106,7 @@ func (f *sizeGen) table() bool {
 		}
 	}
 	f.ver++
-	o := Op{Kind: "fill", N: n, Ver: f.ver, Pad: pad, Bulk: n / rapid.SampledFrom([]int{1, 1, 1, 2, 4}).Draw(t, "split")}
+	o := Op{Kind: "fill", N: n, Ver: f.ver, Pad: pad, Bulk: n / rapid.SampledFrom([]int{1, 1, 1, 2, 4}).Draw(t, "split"), Enc: g.fillEnc()}
 	if g.conflict([]string{"openconfig", "fill", "e", "0", "v"}) {
 		return false
 	}
@@ -109,6 +122,7 @@ func (f *sizeGen) single() bool {
 	if rapid.IntRange(0, 2).Draw(t, "asbytes") == 0 {
 		v.Kind = "bytes"
 	}
+	v = f.legacyForm(v)
 	o := Op{Kind: "update", Path: []gn.Elem{{Name: "huge"}, {Name: "blob"}}, Val: v, Pad: rapid.SampledFrom([]int{4*mib + 100*kib, 5 * mib, 9 * mib}).Draw(t, "hugepad")}
 	if g.conflict(opKey(o)) {
 		return false
@@ -176,7 +190,7 @@ func genSizeScenario(t *rapid.T, p sizeParams) *Scenario {
 		}
 		g.step()
 	}
-	tg.Ops = g.ops
+	tg.Ops, tg.Legacy = g.ops, g.legacy
 	sc.Targets = append(sc.Targets, tg)
 	for i := 1; i < nt; i++ {
 		sc.Targets = append(sc.Targets, genTarget(t, i, nt, sc.Servers, sc.Requests))
